@@ -517,6 +517,9 @@ func (rngdata *RangeNamespaceData) ReadFrom(reader io.Reader) (int64, error) {
 	}
 
 	rngdata.Shares = make([][]libshare.Share, len(nd))
+	// the receiver may be reused for several reads (e.g. one response container for all attempts
+	// of a request): proofs of a previous read must not survive into a response that has fewer rows
+	rngdata.FirstIncompleteRowProof, rngdata.LastIncompleteRowProof = nil, nil
 	for i, row := range nd {
 		rngdata.Shares[i] = row.Shares
 		if i == 0 {
